@@ -264,6 +264,9 @@ func (e *Enc) unop(in *ssa.UnOp, st *State) {
 		}
 		e.wellFormedVal(out)
 		e.set(in, out)
+		if g, ok := in.X.(*ssa.Global); ok {
+			e.closedFacts(g, out, st)
+		}
 	case token.NOT:
 		e.set(in, &Val{typ: in.Type(), c: []string{not(x.c[0])}})
 	case token.SUB:
@@ -333,9 +336,7 @@ func (e *Enc) binop(in *ssa.BinOp) {
 			}
 			b(f)
 		case token.ADD:
-			r := e.fresh("concat", "Str")
-			e.assume(eq(app("slen", r), app("+", app("slen", x.c[0]), app("slen", y.c[0]))))
-			b(r)
+			b(e.concat(x.c[0], y.c[0]))
 		default:
 			b(e.fresh("strcmp", "Bool"))
 		}
@@ -616,4 +617,17 @@ func storesToFreeVar(fn *ssa.Function, name string) bool {
 		}
 	}
 	return false
+}
+
+// concat: string concatenation as an uninterpreted function with its length and content facts.
+func (e *Enc) concat(a, b string) string {
+	f := e.declareFun("str!concat", "(Str Str) Str")
+	r := app(f, a, b)
+	key := "concatfact:" + r
+	if !e.declared[key] {
+		e.declared[key] = true
+		e.assume(eq(app("slen", r), app("+", app("slen", a), app("slen", b))))
+		e.assume(fmt.Sprintf("(forall ((i Int)) (! (= (sat %s i) (ite (< i (slen %s)) (sat %s i) (sat %s (- i (slen %s))))) :pattern ((sat %s i))))", r, a, a, b, a, r))
+	}
+	return r
 }
